@@ -215,7 +215,8 @@ int disasm_cell(
 
   strcpy(instruction, "???");
 
-  return 0;
+  // An unknown opcode still takes up 4 bytes.
+  return 4;
 }
 
 void list_output_cell(
